@@ -106,6 +106,13 @@ def directed(ctx, rnd):
         if lv == 1:
             f["name"] = b"short"
         out.append((f, None))
+    # level 1: extended headers whose sizes ADD UP to 64 KiB and more (each size field is 16 bits, their sum is not): the
+    # compressed size the caller sees is the size field minus exactly that sum
+    for sizes in ([40000, 30000], [65532, 1], [65532, 2], [65532, 3], [32768, 32768], [65535 - 3, 65535 - 3, 65535 - 3], [20000] * 7):
+        exts = [(0x7e, bytes(rnd.randrange(256) for _ in range(n_))) for n_ in sizes] + [(1, b"first.txt")]
+        f = {"level": 1, "method": b"-lh0-", "clen": 5, "length": 5, "crc": lb.crc16(b"hello"), "attr": 0x20, "os": ord('U'),
+             "time": 0x21, "name": b"", "exts": exts}
+        out.append((f, b"hello"))
     # -lh7- / LHARK and the Amiga directory rule, with near misses
     for lv in (0, 1, 2, 3):
         for o in (ord(' '), ord('M'), ord('A'), ord('a')):
